@@ -26,5 +26,5 @@ Definition ckpt_params_ok : bool :=
 
 Definition cki_step (bsz : nat) : kstate -> kop -> kstate * kout := kstep bsz CKPT_RESTORE_STEPS.
 Definition cki_fill_all (bsz : nat) : kstate -> kstate := fill_all bsz CKPT_RESTORE_STEPS.
-Definition cki_open_ckpt : ckpt -> list (N * ckpt) -> kstate := open_ckpt.
+Definition cki_open_ckpt (bsz : nat) : ckpt -> list (N * ckpt) -> kstate := open_ckpt bsz.
 Definition cki_init : kstate := kinit.
